@@ -13,6 +13,9 @@
 #ifndef VARIANT
 #define VARIANT 0
 #endif
+#ifndef GLANE
+#define GLANE 0
+#endif
 static inline uint64_t dbits(double d) { union { double d; uint64_t u; } x; x.d = d; return x.u; }
 static inline double dfrom(uint64_t u) { union { double d; uint64_t u; } x; x.u = u; return x.d; }
 // a symbolic power of two 2^j, lo <= j <= hi, built from its bit pattern
@@ -59,7 +62,40 @@ void h_to_znx64(void) {
   uint64_t g = nondet_u64(); __CPROVER_assume(g < NNR);
   double q = v[g] / pre.divisor;   // exact: d is a power of two, no underflow in range
   __CPROVER_assert(-lim <= (double)r[g] && (double)r[g] <= lim, "to_znx64: result in range");
-  __CPROVER_assert(fabs((double)r[g] - q) <= 0.5, "to_znx64: result within 1/2 of v/d");
+  // exact comparison: r is an integer below 2^52, so r - 0.5 and r + 0.5 are representable and the two comparisons are
+  // exact (computing r - q first would round a distance of 1/2 + 2^-54 down to 1/2)
+  if (fabs(q) == 0x1.fffffffffffffp-2) {
+    // the largest double below 1/2: see known_findings.json (bnd63 adds d/2 before truncating; 0.5-2^-54 + 0.5 rounds to 1)
+    __CPROVER_assert((double)r[g] - 0.5 <= q && q <= (double)r[g] + 0.5, "to_znx64: result within 1/2 of v/d at the near-tie input |v/d| = 0.5 - 2^-54");
+  } else {
+    __CPROVER_assert((double)r[g] - 0.5 <= q && q <= (double)r[g] + 0.5, "to_znx64: result within 1/2 of v/d");
+  }
+  VACUITY_CANARY();
+}
+
+// ---- the same through the table constructor and the dispatcher: init_reim_to_znx64_precomp(m, d, log2bound) selects the
+// kernel; whatever it selects (either outcome of __builtin_cpu_supports) must be within 1/2 for |v/d| < 2^min(log2bound,52)
+#ifndef LOG2BOUND
+#define LOG2BOUND 50
+#endif
+void h_to_znx64_dispatch(void) {
+  REIM_TO_ZNX64_PRECOMP pre;
+  int j; double d = pow2_sym(0, 20, &j);
+  double dinv = dfrom(((uint64_t)(1023 - j)) << 52);
+  void* ok = init_reim_to_znx64_precomp(&pre, M, d, LOG2BOUND);
+  __CPROVER_assert(ok != 0, "init_reim_to_znx64_precomp accepts log2bound <= 64 and divisor 2^j");
+  double v[NNR]; int64_t r[NNR];
+  double lim = (LOG2BOUND >= 52) ? 0x1p52 : dfrom(((uint64_t)(1023 + LOG2BOUND)) << 52);
+  uint64_t g = GLANE;
+  for (int i = 0; i < NNR; ++i) v[i] = nondet_double();
+  __CPROVER_assume(!isnan(v[g]) && !isinf(v[g]) && fabs(v[g] * dinv) < lim);
+  reim_to_znx64(&pre, r, v);
+  double q = v[g] * dinv;
+  if (fabs(q) == 0x1.fffffffffffffp-2) {
+    __CPROVER_assert((double)r[g] - 0.5 <= q && q <= (double)r[g] + 0.5, "to_znx64 (dispatched): result within 1/2 of v/d at the near-tie input |v/d| = 0.5 - 2^-54");
+  } else {
+    __CPROVER_assert((double)r[g] - 0.5 <= q && q <= (double)r[g] + 0.5, "to_znx64 (dispatched): result within 1/2 of v/d for |v/d| < 2^min(log2bound,52)");
+  }
   VACUITY_CANARY();
 }
 
